@@ -45,6 +45,10 @@ CLAIMS = {
             'Proof on the spec-level model Spec.Checksum of the eight algorithm modules for every word length and every alphabet of the stated '
             'shape; the model is hand-written and its tie to stdnum is the differential run tools/corr/checksum.py (every check) plus the '
             'differential run of the regenerated functions.', '§4 C06', ''),
+    'C08': ('Lean 4 theorems on the regenerated conversion functions (target-valid, identity embedded, paired conversions inverse; for every valid source number given in any accepted presentation), negations of over-strong statements by kernel-evaluated witnesses; differential run; failing-input search over 41 conversion functions',
+            'Proof for the relations listed in obligations/C08.json on definitions regenerated from the current source; relations whose functions the translator does not model '
+            '(fr.siret, de.stnr, isan, it.aic base 32, meid) are covered by the search only. Several full statements are false of the code as it is (separator-carrying inputs '
+            'spliced by position; CUSIP special characters): proved negations + _partial theorems, listed as findings.', '§4 C08, §8', ''),
     'C10': ('Lean 4 theorems (lossless concatenation, loop = declarative shortest-prefix rule, unfolding, unmatched tail, reader invariants; all trees, all numbers) on a hand-written model of numdb tied by a differential run on all shipped registries and generated files; failing-input search against an independent transcription of the rule',
             'Proof on the hand-written model Spec.NumDB of NumDB._find/info/split and of the reader; tie = tools/corr/numdb.py (all 17 shipped files + '
             'generated well-formed and ill-formed files, every check). Equality of the Lean reader and the Python reader is tested, not proved.', '§4 C10', ''),
